@@ -134,6 +134,49 @@ pub fn unlisted_case_runs(with: &[u8], without: &[u8]) -> Result<(), String> {
     Ok(())
 }
 
+/// Streams `styled-prefix a <sequence> b` for every kind of non-SGR sequence: an OSC with every number 0..=255 (and a
+/// few larger ones) as its first field, BEL and ST terminated, with and without a payload; a CSI with every final byte
+/// 0x40..=0x7e other than `m` and four parameter strings; an ESC with every final byte 0x30..=0x7e, bare and after an
+/// intermediate; a DCS / SOS / PM / APC string.  None of them may change the style or the text.
+pub fn non_sgr_cases() -> Vec<Vec<u8>> {
+    let prefix: &[u8] = b"\x1b[1;4;38;5;208;48;2;1;2;3ma";
+    let mut out = vec![];
+    let mut push = |seq: Vec<u8>| {
+        let mut v = prefix.to_vec();
+        v.extend(seq);
+        v.push(b'b');
+        out.push(v);
+    };
+    for n in (0u32..=255).chain([777, 1337, 9999]) {
+        push(format!("\x1b]{n}\x07").into_bytes());
+        push(format!("\x1b]{n};x\x1b\\").into_bytes());
+        push(format!("\x1b]{n};rgb:ff/00/00\x07").into_bytes());
+    }
+    for f in 0x40u8..=0x7e {
+        if f == b'm' {
+            continue;
+        }
+        for params in ["", "0", "1", "1;31", "38;5;9", "?25", ">4;2"] {
+            let mut v = b"\x1b[".to_vec();
+            v.extend(params.as_bytes());
+            v.push(f);
+            push(v);
+        }
+    }
+    for f in 0x30u8..=0x7e {
+        if matches!(f, b'[' | b']' | b'P' | b'X' | b'^' | b'_') {
+            continue;
+        }
+        push(vec![0x1b, f]);
+        push(vec![0x1b, b'(', f]);
+        push(vec![0x1b, b'#', f]);
+    }
+    for intro in [b'P', b'X', b'^', b'_'] {
+        push([&[0x1b, intro][..], b"0;1|data 31m\x1b\\"].concat());
+    }
+    out
+}
+
 pub fn wincon_clause_of(m: &str) -> String {
     for (pat, c) in [
         ("visible text differs", "text-differs"),
